@@ -6,6 +6,8 @@ import (
 	"sort"
 
 	"golang.org/x/tools/go/ssa"
+
+	"manticheck/internal/flow"
 )
 
 // C12 extension `R1b-state-advance` (added after an independently seeded
@@ -100,6 +102,7 @@ func isDstArg(call *ssa.Call, a ssa.Value) bool {
 func c12StateAdvance(c *Ctx) {
 	p, r := c.P, c.R
 	const rule = "R1b-state-advance"
+	eng := flow.New(p)
 	for _, t := range []struct {
 		rel, recv, fn string
 		must          []string
@@ -114,6 +117,13 @@ func c12StateAdvance(c *Ctx) {
 			continue
 		}
 		got := fieldsStored(fn)
+		// … or through an in-module helper / a standard-library call that writes the
+		// memory it is handed (parameter-rooted write summary, certain writes only)
+		for _, w := range eng.Writes(fn) {
+			if w.Param == 0 && !w.Uncertain && w.Field() != "" {
+				got[w.Field()] = true
+			}
+		}
 		var missing []string
 		for _, f := range t.must {
 			if !got[f] {
